@@ -90,6 +90,7 @@ Definition arr_unary (a : option arr) : result access :=
 (* vm_execute_op_mul_arr_arr_<t>:
      nil -> NIL_POINTER; !can_mult -> WRONG_ARRAY_SIZE;
      dv = { m1->dv[0].elems, m2->dv[1].elems };
+     !object_arr_dim_fits(2, dv) -> "improper array size", WRONG_ARRAY_SIZE          (fix 1f9996a)
      for i < m1->dv[0].elems, j < m2->dv[1].elems, k < m1->dv[1].elems:
         sum += m1->value[i * m1->dv[1].elems + k] * m2->value[k * m2->dv[1].elems + j]
      mres[i * dv[1].elems + j] = sum                       (all indices unsigned int) *)
@@ -109,6 +110,7 @@ Definition arr_matmul (a1 a2 : option arr) : result access :=
         let n0 := dv_elems (a_dv m1) 0 in
         let n1 := dv_elems (a_dv m1) 1 in
         let p1 := dv_elems (a_dv m2) 1 in
+        if negb (dim_fits [n0; p1]) then Exc WrongArraySize else
         Ok {| acc_shape := [n0; p1]; acc_dv := fst (dim_mult [n0; p1]);
               acc_reads := matmul_reads n0 n1 p1 |}
   | _, _ => Exc NilPointer
